@@ -32,7 +32,7 @@ NAMES = ['secret', 'secret_key', 'db_secret_url', 'my_secretX', 'token', 's', 'p
          'page_title',      # page_title: also the name of one of the meta application's own resources
          u'caf\udce9 file', u'secret caf\udce9', u'<b>&"name"']   # names that are not identifiers: surrogate-escaped, markup
 KINDS = ['str', 'bytes', 'int', 'nested', 'reprobj', 'longstr', 'surrstr']
-MOUNTS = ['/_meta/', '/m', '/', 'deep', 'static-first']
+MOUNTS = ['/_meta/', '/m', '/', 'deep', 'static-first', 'titled']
 # static-first: a static application and the meta application share one prefix, the static one listed first
 # (its misses fall through to the meta pages)
 MWSETS = ['none', 'cookie', 'custom', 'subclass', 'provides-shapes', 'ctxproc-of-resources', 'cookie-positional',
@@ -233,6 +233,11 @@ def build_host(resources, mwset, mount, meta=None):
         def __repr__(self):
             return '<Tmpl object>'
     meta = meta or MetaApplication()
+    if mount == 'titled':
+        # a page title and a host route whose text cannot be encoded (lone surrogates of both halves)
+        meta = MetaApplication(page_title=u'ops \ud83d console \udc00')
+        host = Application(routes + [(u'/caf\udce9/<x>', func, render_basic), ('/ops', meta)], resources=dict(resources), middlewares=mws)
+        return host, '/ops'
     if mount == 'static-first':
         host = Application(routes + [('/ops', StaticApplication(here)), ('/ops', meta)], resources=dict(resources), middlewares=mws)
         return host, '/ops'
